@@ -53,8 +53,98 @@ def canonical(call, handed):
     return Renamer(mapping).visit(call)
 
 
+class Subst(ast.NodeTransformer):
+    """parameter := argument expression"""
+    def __init__(self, mapping):
+        self.mapping = mapping
+
+    def visit_Name(self, node):
+        if node.id in self.mapping:
+            import copy
+            new = copy.deepcopy(self.mapping[node.id])
+            if isinstance(node.ctx, ast.Store):
+                if not isinstance(new, ast.Name):
+                    raise Untranslatable('a helper assigns to a parameter bound to ' + src(new))
+                new.ctx = ast.Store()
+            return ast.copy_location(new, node)
+        return node
+
+
+def is_contextmanager(fn):
+    return any(src(d).split('.')[-1] == 'contextmanager' for d in fn.decorator_list)
+
+
+def inline_helpers(stmts, funcs, depth=0):
+    """private module-level helpers that a `__call__` delegates to are read as if their bodies stood in
+    its place: `return helper(a, b)`, `helper(a, b)` and `with helper(a) as v: BODY` where helper is a
+    generator-based context manager (every `yield E` stands for BODY with v := E)"""
+    import copy
+    if depth > 4:
+        raise Untranslatable('helpers nested too deeply')
+    out = []
+    for st in stmts:
+        call = None
+        if isinstance(st, (ast.Return, ast.Expr)) and isinstance(st.value, ast.Call):
+            call = st.value
+            if isinstance(call.func, ast.Name) and call.func.id == 'cast' and len(call.args) == 2 \
+                    and isinstance(call.args[1], ast.Call):
+                call = call.args[1]
+        if call is not None and isinstance(call.func, ast.Name) and call.func.id in funcs \
+                and not call.keywords and not is_contextmanager(funcs[call.func.id]):
+            fn = funcs[call.func.id]
+            params = [a.arg for a in fn.args.args]
+            if len(params) != len(call.args) or fn.args.vararg or fn.args.kwonlyargs:
+                raise Untranslatable('call of helper ' + fn.name)
+            body = [Subst(dict(zip(params, call.args))).visit(copy.deepcopy(b)) for b in fn.body]
+            if isinstance(st, ast.Expr) and any(isinstance(n, ast.Return) and n.value is not None
+                                                for b in body for n in ast.walk(b)):
+                raise Untranslatable('value of helper ' + fn.name + ' dropped')
+            out += inline_helpers(body, funcs, depth + 1)
+            continue
+        if isinstance(st, ast.With) and len(st.items) == 1 and isinstance(st.items[0].context_expr, ast.Call) \
+                and isinstance(st.items[0].context_expr.func, ast.Name) \
+                and st.items[0].context_expr.func.id in funcs \
+                and is_contextmanager(funcs[st.items[0].context_expr.func.id]):
+            call = st.items[0].context_expr
+            fn = funcs[call.func.id]
+            params = [a.arg for a in fn.args.args]
+            var = st.items[0].optional_vars
+            if len(params) != len(call.args) or call.keywords or (var is not None and not isinstance(var, ast.Name)):
+                raise Untranslatable('context manager ' + fn.name)
+            body = [Subst(dict(zip(params, call.args))).visit(copy.deepcopy(b)) for b in fn.body]
+            for b in body:
+                if any(isinstance(n, (ast.Try,)) for n in ast.walk(b)):
+                    raise Untranslatable('try in context manager ' + fn.name)
+
+            class Y(ast.NodeTransformer):
+                def visit_Expr(self, node):
+                    if isinstance(node.value, ast.Yield):
+                        inner = [copy.deepcopy(x) for x in st.body]
+                        if var is not None:
+                            if node.value.value is None:
+                                raise Untranslatable('bare yield in ' + fn.name)
+                            inner = [Subst({var.id: node.value.value}).visit(x) for x in inner]
+                        return inner
+                    return node
+            new = []
+            for b in body:
+                r = Y().visit(b)
+                new += r if isinstance(r, list) else [r]
+            out += inline_helpers(new, funcs, depth + 1)
+            continue
+        # recurse into compound statements
+        st = copy.deepcopy(st)
+        for field in ('body', 'orelse'):
+            if isinstance(getattr(st, field, None), list) and not isinstance(st, (ast.FunctionDef, ast.ClassDef)):
+                setattr(st, field, inline_helpers(getattr(st, field), funcs, depth))
+        out.append(st)
+    return out
+
+
 def factory_sites(path):
     tree = ast.parse(open(path).read())
+    funcs = {n.name: n for n in tree.body if isinstance(n, ast.FunctionDef)}
+    mclasses = {n.name: n for n in tree.body if isinstance(n, ast.ClassDef)}
     out = []
     for fn in [n for n in tree.body if isinstance(n, ast.FunctionDef)]:
         classes = [n for n in fn.body if isinstance(n, ast.ClassDef)]
@@ -64,6 +154,16 @@ def factory_sites(path):
             init = [m for m in cls.body if isinstance(m, ast.FunctionDef) and m.name == '__init__']
             if not call:
                 continue
+            if not init:
+                # the constructor may live in a private module-level base class
+                for b in cls.bases:
+                    if isinstance(b, ast.Name) and b.id in mclasses:
+                        init = [m for m in mclasses[b.id].body if isinstance(m, ast.FunctionDef) and m.name == '__init__']
+                        if init:
+                            break
+            import copy as _copy
+            call = [_copy.deepcopy(call[0])]
+            call[0].body = inline_helpers(call[0].body, funcs)
             # self.<attr> = <param>  in __init__, and the argument at the return site
             alias = {}
             if init and ret and isinstance(ret[-1].value, ast.Call) and src(ret[-1].value.func) == cls.name:
